@@ -100,22 +100,33 @@ func (c06) Gen(r *sim.Rand, c *sim.Case, tier string) {
 	if len(kinds) == 0 {
 		kinds = []string{r.Pick(c06producer...)}
 	}
-	nf := r.Range(1, 3)
-	if r.Chance(0.1) {
-		nf = 0 // only a reader fault
+	// a case is a HISTORY of opens in one process: 1 (usually) to 8 rounds, each damaging the valid package
+	// afresh; what an earlier failed open leaves behind in the process must not affect a later one
+	rounds := 1
+	if r.Chance(0.3) {
+		rounds = r.Range(2, 8)
 	}
-	for i := 0; i < nf; i++ {
-		k := kinds[r.Intn(len(kinds))]
-		ops = append(ops, sim.Op{K: k, I: []int{r.Intn(1000), r.Intn(1000), r.Intn(18), []int{2, 10, 100, 1000, 10000}[r.Intn(5)]}, S: []sim.Str{sim.Str(c06pickPart(r))}})
+	for round := 0; round < rounds; round++ {
+		if round > 0 {
+			ops = append(ops, sim.Op{K: "reset"})
+		}
+		nf := r.Range(1, 3)
+		if r.Chance(0.1) || (round == rounds-1 && rounds > 1 && r.Bool()) {
+			nf = 0 // only a reader fault / the valid package itself
+		}
+		for i := 0; i < nf; i++ {
+			k := kinds[r.Intn(len(kinds))]
+			ops = append(ops, sim.Op{K: k, I: []int{r.Intn(1000), r.Intn(1000), r.Intn(18), []int{2, 10, 100, 1000, 10000}[r.Intn(5)]}, S: []sim.Str{sim.Str(c06pickPart(r))}})
+		}
+		if r.Chance(0.08) {
+			ops = append(ops, sim.Op{K: "Z-size", I: []int{r.Intn(1000), r.Intn(4)}})
+		}
+		rd := sim.Op{K: "open", I: []int{r.Intn(2), r.Intn(1000)}} // I[0]: 0 memory, 1 file
+		if rd.I[0] == 0 && r.Chance(0.5) {
+			rd.S = []sim.Str{sim.Str(r.Pick(c06reader...))}
+		}
+		ops = append(ops, rd)
 	}
-	if r.Chance(0.08) {
-		ops = append(ops, sim.Op{K: "Z-size", I: []int{r.Intn(1000), r.Intn(4)}})
-	}
-	rd := sim.Op{K: "open", I: []int{r.Intn(2), r.Intn(1000)}} // I[0]: 0 memory, 1 file
-	if rd.I[0] == 0 && r.Chance(0.5) {
-		rd.S = []sim.Str{sim.Str(r.Pick(c06reader...))}
-	}
-	ops = append(ops, rd)
 	c.Tasks = [][]sim.Op{ops}
 	c.Order = orderPolicy(r)
 	c.OrderSeed = r.Uint64()
@@ -490,7 +501,11 @@ func (p c06) Exec(c *sim.Case, env *Env) []sim.Violation {
 			if cur == nil {
 				if ds := w.Doc(0); ds.Base != nil { // foreign package
 					cur = ds.Base
-					saves = append(saves, cur)
+					if len(saves) == 0 {
+						saves = append(saves, cur)
+					}
+				} else if len(saves) > 0 {
+					cur = saves[len(saves)-1]
 				} else {
 					continue
 				}
@@ -501,15 +516,25 @@ func (p c06) Exec(c *sim.Case, env *Env) []sim.Violation {
 			}
 			env.Log.Event("fault %s %v %s -> %s", op.K, op.I, op.Str(0), sim.Digest(next))
 			cur = next
+		case op.K == "reset": // next round: start again from the valid package
+			cur = nil
+			if len(saves) > 0 {
+				cur = saves[len(saves)-1]
+			}
+			env.Stats.Probe("open_rounds")
 		case op.K == "open":
 			if cur == nil {
 				if ds := w.Doc(0); ds.Base != nil {
 					cur = ds.Base
+				} else if len(saves) > 0 {
+					cur = saves[len(saves)-1]
 				} else {
 					return nil
 				}
 			}
-			return p.openAndSweep(c, env, w, op, cur, fail)
+			if vs := p.openAndSweep(c, env, w, op, cur, fail); len(vs) > 0 {
+				return vs
+			}
 		default:
 			w.Apply(op)
 			if w.Doc(0).Dead {
